@@ -13,9 +13,10 @@ SOCK_NOTE = ("Assumes CPython 3.12 asyncio stream semantics (real StreamReader/W
 CHECKS = {
     "C01": ("TLC model-checks the implementation-shaped TLA+ model SocketImpl against the L1 contract monitor SocketContract "
             "(clauses NoFabrication, OnceUnlessFailed, FirstTxInOrder, PromptAtQuiesce, GarbledFrame) exhaustively for small constants; "
-            "TLC-generated schedules, seeded order/mixed scripts and >256-send long runs are executed on the real AirTouchSocket and every "
+            "also with back-pressure stalls and send() calls cancelled by their caller while suspended in drain(); "
+            "TLC-generated schedules, seeded order/mixed/stalled-connection scripts and >256-send long runs are executed on the real AirTouchSocket and every "
             "recorded trace is validated by TLC against the contract through the byte-level front-end (reference framing, CRC and "
-            "message reading in TLA+). Thorough: sensitivity run F_ENQ=FALSE must violate OnceUnlessFailed.", "6 C01", SOCK_NOTE),
+            "message reading in TLA+). Thorough: sensitivity runs F_ENQ=FALSE must violate OnceUnlessFailed, F_SOLO=FALSE must violate PromptAtQuiesce.", "6 C01", SOCK_NOTE),
     "C02": ("Same machinery with the retry clauses AttemptBound, NotAfterExpiry, FailedFirstOnNext, FailedNotResent: SocketImpl explored with "
             "all three policies, write faults and back-pressure stalls (drain suspended while lifetimes run out; F_CLOCK sensitivity); scripts place "
             "faults/refusals/connections at lifetime -125/0/+125 ms and drain held messages into connections that stall.", "6 C02", SOCK_NOTE),
